@@ -85,6 +85,15 @@ READER_SHADOW_SRCS = [
     "sdk/src/metrics/export/periodic_exporting_metric_reader.cc",
     "sdk/src/metrics/metric_reader.cc",
 ]
+# the whole metrics SDK under the scheduler shim (C06 meter_sched): every header and source of
+# sdk/.../metrics plus the spin lock; resolved by glob against the tree that is being checked
+METRICS_SHADOW_GLOBS = [
+    "sdk/include/opentelemetry/sdk/metrics/**/*.h",
+    "sdk/src/metrics/**/*.cc",
+    "sdk/src/metrics/**/*.h",
+]
+METRICS_SHADOW_SRCS_GLOBS = ["sdk/src/metrics/**/*.cc"]
+METRICS_PLAIN_GLOBS = ["sdk/src/common/**/*.cc", "sdk/src/resource/*.cc", "sdk/src/version/*.cc"]
 # plain (unshadowed) repository sources the shadowed classes need at link time
 BATCH_PLAIN = [
     "sdk/src/trace/exporter.cc",
